@@ -377,7 +377,7 @@ func ruleTileAddressing(w *World, r *Run, h int64) {
 		return
 	}
 	e := w.engine(8, 2)
-	e.maxRec = 2
+	e.loopBound, e.maxRec = 2, 2 // same bounds in both tiers: two tiles per request, up to three digit groups (index < 10^9)
 	sums := e.Explore(fn)
 	r.Analysed(rt+" ∘ client", len(sums))
 	for _, s := range sums {
